@@ -90,13 +90,19 @@ Theorem early_exit_released_after_fix :
 Proof. exact new_not_stuck. Qed.
 Print Assumptions early_exit_released_after_fix.
 
-(** A wavefront executing s_waitcnt vm lgkm stops being Running only in a step
-    in which its outstanding scalar (+flat) count is <= lgkm and its
-    outstanding vector count is <= vm.  Holds for both variants of the code. *)
+(** A wavefront executing s_waitcnt vm lgkm moves past it (its PC is advanced
+    by UpdatePCAndSetReady; [w_pc] counts these calls) only in a step in which
+    its outstanding scalar (+flat) count is <= lgkm and its outstanding vector
+    count is <= vm.  [e] ranges over all events, including the pipeline flush
+    and restart sent by the command processor during a TLB shootdown: a flush
+    makes the waiting wavefront Ready without moving its PC (the s_waitcnt is
+    executed again after the restart) and leaves the counters alone (next
+    theorem), so it never lets a wavefront get past an s_waitcnt early.
+    Holds for both variants of the code. *)
 Theorem waitcnt_sound : forall fx evs e i w w1 vm lgkm,
   let s := run fx init evs in
   get s i = Some w -> w_inst w = KWait vm lgkm -> w_st w = WRunning ->
-  get (step fx s e) i = Some w1 -> w_st w1 <> WRunning ->
+  get (step fx s e) i = Some w1 -> w_pc w1 <> w_pc w ->
   (out_s w <= lgkm)%N /\ (out_v w <= vm)%N.
 Proof.
   intros fx evs e i w w1 vm lgkm s. apply waitcnt_transition.
@@ -104,9 +110,24 @@ Proof.
 Qed.
 Print Assumptions waitcnt_sound.
 
+(** Pipeline flush (ComputeUnit.flushPipeline): the outstanding-access counts,
+    the PC and the barrier generation of every wavefront are unchanged (the
+    in-flight accesses move to the shadow buffers and are replayed after the
+    restart, their replies still decrement the counters); no wavefront ends;
+    every wavefront that has not ended becomes Ready. *)
+Theorem flush_keeps_counters : forall evs i w,
+  let s := run true init evs in
+  get s i = Some w ->
+  exists w1, get (step true s EFlush) i = Some w1 /\
+    w_wg w1 = w_wg w /\ w_ns w1 = w_ns w /\ w_nv w1 = w_nv w /\ w_pc w1 = w_pc w /\ w_pass w1 = w_pass w /\
+    (w_st w = WCompleted -> w1 = w) /\ (w_st w <> WCompleted -> w_st w1 = WReady).
+Proof. intros evs i w s. apply flush_effect. exact (no_crash_of_inv _ (inv_reach evs)). Qed.
+Print Assumptions flush_keeps_counters.
+
 (** A wavefront becomes Completed only by its own s_endpgm, in a step in which
     both outstanding counts are zero; and a Completed wavefront has no memory
-    operation in flight at any later time. *)
+    operation in flight at any later time.  [evs] and [e] include pipeline
+    flushes and restarts. *)
 Theorem endpgm_after_mem : forall fx evs,
   let s := run fx init evs in
   (forall i w, get s i = Some w -> w_st w = WCompleted ->
@@ -191,6 +212,15 @@ Example demo_states :
   map w_st (wfs s) = [WCompleted; WReady; WCompleted] /\
   map w_pass (wfs s) = [1; 1; 0] /\ map w_arr (wfs s) = [0; 1; 0] /\
   sent s = [1] /\ internal s = [] /\ bbuf s = [] /\ crashed s = false.
+Proof. vm_compute. repeat split; reflexivity. Qed.
+
+(** a flush while wavefront 0 waits in s_waitcnt with a flat access in flight
+    and wavefront 1 waits at a barrier: both are rolled back to Ready, the
+    access stays outstanding, nothing is left in the scheduler's lists *)
+Example demo_flush :
+  let s := run true init (firstn 8 demo ++ [EFlush; ERestart]) in
+  map w_st (wfs s) = [WReady; WReady; WReady] /\ map out_v (wfs s) = [1%N; 0%N; 0%N] /\
+  map w_arr (wfs s) = [0; 0; 0] /\ internal s = [] /\ bbuf s = [].
 Proof. vm_compute. repeat split; reflexivity. Qed.
 
 Example emu_demo :
